@@ -27,7 +27,12 @@ Definition wrap8 := wrap 8.
 (* width in bits of an address-sized field *)
 Definition xw (c : cls) : N := match c with C32 => 32 | C64 => 64 end.
 
-Definition lenN {A} (l : list A) : N := N.of_nat (length l).
+(* length as a binary number, counted structurally (no unary nat: matters for
+   the extracted model on megabyte inputs) *)
+Fixpoint lenN {A} (l : list A) : N :=
+  match l with [] => 0 | _ :: t => N.succ (lenN t) end.
+Lemma lenN_length {A} (l : list A) : lenN l = N.of_nat (length l).
+Proof. induction l as [|x t IH]; cbn [lenN length]; [reflexivity|]. rewrite IH; lia. Qed.
 
 (* ---- N-indexed list operations (structural on the list; fast when extracted) ---- *)
 Fixpoint firstnN {A} (l : list A) (n : N) : list A :=
@@ -44,8 +49,7 @@ Fixpoint skipnN {A} (l : list A) (n : N) : list A :=
 
 Definition sliceN {A} (l : list A) (off n : N) : list A := firstnN (skipnN l off) n.
 
-Fixpoint lengthN {A} (l : list A) : N :=
-  match l with [] => 0 | _ :: t => N.succ (lengthN t) end.
+Definition lengthN {A} (l : list A) : N := lenN l.
 
 Fixpoint nthN {A} (l : list A) (n : N) (d : A) : A :=
   match l with
@@ -93,7 +97,7 @@ Proof.
 Qed.
 
 Lemma lengthN_lenN {A} (l : list A) : lengthN l = lenN l.
-Proof. unfold lenN; induction l as [|x t IH]; cbn [lengthN length]; [reflexivity|]. rewrite IH; lia. Qed.
+Proof. reflexivity. Qed.
 
 Lemma nth_optN_nth_error {A} (l : list A) n : nth_optN l n = nth_error l (N.to_nat n).
 Proof.
@@ -127,39 +131,39 @@ Lemma repeatN_repeat {A} (x : A) n : repeatN x n = repeat x (N.to_nat n).
 Proof. destruct n as [|p]; [reflexivity|]. cbn [repeatN]. rewrite repeatN_pos_repeat. f_equal. Qed.
 
 Lemma lenN_app {A} (a b : list A) : lenN (a ++ b) = lenN a + lenN b.
-Proof. unfold lenN; rewrite app_length; lia. Qed.
+Proof. rewrite ?lenN_length; rewrite app_length; lia. Qed.
 Lemma lenN_nil {A} : lenN (@nil A) = 0. Proof. reflexivity. Qed.
 Lemma lenN_cons {A} (x : A) l : lenN (x :: l) = 1 + lenN l.
-Proof. unfold lenN; cbn [length]; lia. Qed.
+Proof. rewrite ?lenN_length; cbn [length]; lia. Qed.
 Lemma lenN_repeatN {A} (x : A) n : lenN (repeatN x n) = n.
-Proof. unfold lenN; rewrite repeatN_repeat, repeat_length; lia. Qed.
+Proof. rewrite ?lenN_length; rewrite repeatN_repeat, repeat_length; lia. Qed.
 Lemma lenN_firstnN {A} (l : list A) n : lenN (firstnN l n) = N.min n (lenN l).
-Proof. unfold lenN; rewrite firstnN_firstn, firstn_length; lia. Qed.
+Proof. rewrite ?lenN_length; rewrite firstnN_firstn, firstn_length; lia. Qed.
 Lemma lenN_skipnN {A} (l : list A) n : lenN (skipnN l n) = lenN l - n.
-Proof. unfold lenN; rewrite skipnN_skipn, skipn_length; lia. Qed.
+Proof. rewrite ?lenN_length; rewrite skipnN_skipn, skipn_length; lia. Qed.
 Lemma lenN_map {A B} (f : A -> B) l : lenN (map f l) = lenN l.
-Proof. unfold lenN; now rewrite map_length. Qed.
+Proof. rewrite ?lenN_length; now rewrite map_length. Qed.
 Lemma lenN_rev {A} (l : list A) : lenN (rev l) = lenN l.
-Proof. unfold lenN; now rewrite rev_length. Qed.
+Proof. rewrite ?lenN_length; now rewrite rev_length. Qed.
 Lemma lenN_0 {A} (l : list A) : lenN l = 0 -> l = [].
-Proof. destruct l; [reflexivity|]. unfold lenN; cbn [length]; lia. Qed.
+Proof. destruct l; [reflexivity|]. rewrite ?lenN_length; cbn [length]; lia. Qed.
 
 Lemma firstnN_app_exact {A} (a b : list A) n : lenN a = n -> firstnN (a ++ b) n = a.
 Proof.
-  intros H; rewrite firstnN_firstn. unfold lenN in H.
+  intros H; rewrite firstnN_firstn. rewrite ?lenN_length in H.
   replace (N.to_nat n) with (length a + 0)%nat by lia.
   rewrite firstn_app_2; cbn [firstn]; apply app_nil_r.
 Qed.
 Lemma skipnN_app_exact {A} (a b : list A) n : lenN a = n -> skipnN (a ++ b) n = b.
 Proof.
-  intros H; rewrite skipnN_skipn. unfold lenN in H.
+  intros H; rewrite skipnN_skipn. rewrite ?lenN_length in H.
   replace (N.to_nat n) with (length a) by lia.
   rewrite skipn_app, skipn_all, Nat.sub_diag; reflexivity.
 Qed.
 Lemma firstnN_all {A} (l : list A) n : lenN l <= n -> firstnN l n = l.
-Proof. intros H; rewrite firstnN_firstn; apply firstn_all2; unfold lenN in H; lia. Qed.
+Proof. intros H; rewrite firstnN_firstn; apply firstn_all2; rewrite ?lenN_length in H; lia. Qed.
 Lemma skipnN_all {A} (l : list A) n : lenN l <= n -> skipnN l n = [].
-Proof. intros H; rewrite skipnN_skipn; apply skipn_all2; unfold lenN in H; lia. Qed.
+Proof. intros H; rewrite skipnN_skipn; apply skipn_all2; rewrite ?lenN_length in H; lia. Qed.
 Lemma firstnN_0 {A} (l : list A) : firstnN l 0 = [].
 Proof. destruct l; reflexivity. Qed.
 Lemma skipnN_0 {A} (l : list A) : skipnN l 0 = l.
@@ -168,17 +172,17 @@ Lemma firstnN_skipnN {A} (l : list A) n : firstnN l n ++ skipnN l n = l.
 Proof. rewrite firstnN_firstn, skipnN_skipn; apply firstn_skipn. Qed.
 Lemma firstnN_app_le {A} (a b : list A) n : n <= lenN a -> firstnN (a ++ b) n = firstnN a n.
 Proof.
-  intros H; rewrite !firstnN_firstn, firstn_app. unfold lenN in H.
+  intros H; rewrite !firstnN_firstn, firstn_app. rewrite ?lenN_length in H.
   replace (N.to_nat n - length a)%nat with 0%nat by lia. cbn [firstn]; apply app_nil_r.
 Qed.
 Lemma skipnN_app_le {A} (a b : list A) n : n <= lenN a -> skipnN (a ++ b) n = skipnN a n ++ b.
 Proof.
-  intros H; rewrite !skipnN_skipn, skipn_app. unfold lenN in H.
+  intros H; rewrite !skipnN_skipn, skipn_app. rewrite ?lenN_length in H.
   replace (N.to_nat n - length a)%nat with 0%nat by lia. reflexivity.
 Qed.
 Lemma skipnN_app_ge {A} (a b : list A) n : lenN a <= n -> skipnN (a ++ b) n = skipnN b (n - lenN a).
 Proof.
-  intros H; rewrite !skipnN_skipn, skipn_app. unfold lenN in *.
+  intros H; rewrite !skipnN_skipn, skipn_app. rewrite ?lenN_length in *.
   rewrite skipn_all2 by lia. cbn [app]. f_equal. lia.
 Qed.
 Lemma firstnN_firstnN {A} (l : list A) n m : firstnN (firstnN l n) m = firstnN l (N.min m n).
@@ -232,7 +236,7 @@ Proof. revert v; induction n as [|k IH]; intro v; cbn [enc_le length]; [reflexiv
 Lemma enc_uint_length e n v : length (enc_uint e n v) = n.
 Proof. destruct e; cbn [enc_uint]; rewrite ?rev_length; apply enc_le_length. Qed.
 Lemma lenN_enc_uint e n v : lenN (enc_uint e n v) = N.of_nat n.
-Proof. unfold lenN; now rewrite enc_uint_length. Qed.
+Proof. rewrite ?lenN_length; now rewrite enc_uint_length. Qed.
 
 Lemma enc_le_is_bytes n v : is_bytes (enc_le n v).
 Proof.
